@@ -132,7 +132,14 @@ fn main() {
                     }
                 }
             }
-            let (mut out, rule, exhaustive) = run(&ctx);
+            let (mut out, rule, exhaustive) = match std::panic::catch_unwind(std::panic::AssertUnwindSafe(|| run(&ctx))) {
+                Ok(x) => x,
+                Err(p) => {
+                    let msg = p.downcast_ref::<&str>().map(|s| s.to_string()).or_else(|| p.downcast_ref::<String>().cloned()).unwrap_or_default();
+                    println!("INCONCLUSIVE property={} the harness itself panicked: {}", id, msg);
+                    std::process::exit(2);
+                }
+            };
             for (k, v) in pinned_hits {
                 *out.stats.known_hits.entry(k).or_insert(0) += v;
             }
